@@ -3,7 +3,7 @@
 import sys, os, shutil, json, subprocess
 sid, label, detected = sys.argv[1], sys.argv[2], sys.argv[3]
 needs = " ".join(sys.argv[4:])
-src = "/tmp/seedout/" + sid
+src = os.environ.get("SEED_SRC", "/tmp/seedout") + "/" + sid
 dst = "/verif/seeded/" + label
 os.makedirs(dst, exist_ok=True)
 for f in ("patch.diff", "demo_test.go", "notes.md"):
